@@ -327,7 +327,10 @@ pub fn recut_after_delivery(view: &WireView, lives: &[VsockLife], src: std::net:
                             })
                             .next()
                             .is_some();
-                        if r <= wp.t && acked && unique_sender_at(*t0) && unique_sender_at(wp.t) {
+                        // (the earlier version may also reach the receiver after the re-cut was sent - a
+                        // straggler - and meet the pieces of the new version there: same mechanism)
+                        let _ = r;
+                        if acked && view.probe_expired_at(src, dst, id, wp.t) && unique_sender_at(*t0) && unique_sender_at(wp.t) {
                             return Some(wp.t);
                         }
                     }
